@@ -4,6 +4,7 @@
 import Rl2tp.Proofs.Control
 import Rl2tp.Proofs.DataMsg
 import Rl2tp.Spec.Encode
+import Rl2tp.Proofs.DataWriter
 namespace Rl2tp.C06
 
 /-- the writers' value octets and attribute numbers are the layout table's -/
@@ -57,6 +58,20 @@ theorem mkFlags_data_val (l s o p : Bool) :
     mkFlags false l s o p = UInt16.ofNat (0x0020 + (if l then 0x0200 else 0) + (if s then 0x1000 else 0)
       + (if o then 0x4000 else 0) + (if p then 0x8000 else 0)) := by
   cases l <;> cases s <;> cases o <;> cases p <;> decide
+
+/-- the data encoder as the code runs it — `Flags::new` setter by setter (the version assert included), then one
+    append per field present (Model/DataWriter.lean; this is what the correspondence check executes) — emits the
+    specified octets behind whatever the writer held -/
+theorem encodeData_steps_eq_spec (w : Bytes) (d : Data) : writeDataSteps w d = .ok (w ++ Spec.encode (.data d)) := by
+  rw [writeDataSteps_eq]
+  simp only [writeMsg, Spec.encode]
+  congr 2
+  unfold dataImage Spec.encodeData
+  rw [mkFlags_data_val]
+  rfl
+
+/-- `Flags::new` with the constant version 2 never trips its assert and yields the closed-form flag word -/
+theorem flags_new_eq (c l s o p : Bool) : flagsNew c l s o p 2 = .ok (mkFlags c l s o p) := flagsNew_eq c l s o p
 
 /-- every data message (the data encoder has no size limit of its own) -/
 theorem encodeData_eq_spec (d : Data) : encode (.data d) = .ok (Spec.encode (.data d)) := by
